@@ -236,6 +236,8 @@ struct Reference<'a> {
     always_from_root: bool,
     /// Read counts and choice points need a container, not just any object.
     needs_container: bool,
+    /// `"var": true`: the target is the name of a variable holding the path.
+    through_variable: bool,
 }
 
 impl Reference<'_> {
@@ -255,6 +257,7 @@ fn references_of<'a>(object: &'a Map<String, Value>, after_thread: bool) -> Vec<
         target,
         always_from_root,
         needs_container,
+        through_variable: false,
     };
 
     if object.contains_key("^->") {
@@ -271,16 +274,19 @@ fn references_of<'a>(object: &'a Map<String, Value>, after_thread: bool) -> Vec<
         ("->t->", "tunnel target"),
     ] {
         if object.contains_key(key) {
-            if object.contains_key("var") {
-                return Vec::new();
-            }
             let kind = if key == "->" && after_thread {
                 "thread target"
             } else {
                 kind
             };
+            let through_variable = object.contains_key("var");
             return text(key)
-                .map(|target| vec![reference(kind, target, false, false)])
+                .map(|target| {
+                    vec![Reference {
+                        through_variable,
+                        ..reference(kind, target, false, false)
+                    }]
+                })
                 .unwrap_or_default();
         }
     }
@@ -361,6 +367,20 @@ pub(crate) fn check_story_references(document: &Value) -> Result<(), DanglingRef
                     location: tree.location(container, position),
                     reason,
                 };
+
+                // Where a variable leads is only known when the story runs:
+                // there is no path to follow, and nothing shows that it stays
+                // inside the global declarations (see below).
+                if reference.through_variable {
+                    if in_global_declarations {
+                        return Err(dangling(
+                            "cannot be used in the initial value of a global variable, which must \
+                             be a constant"
+                                .to_owned(),
+                        ));
+                    }
+                    continue;
+                }
 
                 if reference.target.is_empty() {
                     return Err(dangling("not found: the path is empty".to_owned()));
